@@ -176,7 +176,7 @@ func (o *Ops) FidDestroy(f *go9p.SrvFid) {
 	c.mu.Unlock()
 	if gate {
 		// a slow callback: the notification counts as delivered when the call returns
-		c.park("cb_destroy", f.Fconn, nil)
+		c.parkFid("cb_destroy", f.Fconn, nil, int(go9p.VerifFidNo(f)))
 		c.mu.Lock()
 		c.Events = append(c.Events, Event{"ev": "destroy", "c": c.connIdx[f.Fconn], "fid": go9p.VerifFidNo(f)})
 		c.mu.Unlock()
